@@ -71,6 +71,16 @@ Theorem C15_invariance : forall (mg v : bool) (hs : headers),
   create_parts mg v (filter (fun nv => is_decision_name (fst nv)) hs) = create_parts mg v hs.
 Proof. exact create_parts_invariance. Qed.
 
+(* order-free acceptance: the four headers anywhere in the list, each name once, whatever else is there *)
+Theorem C15_accept_any_order : forall (hs : headers) (c u key : bytes),
+  once_each hs ->
+  In (B"connection", c) hs -> forallb visible c = true -> has_upgrade_token c = true ->
+  In (B"upgrade", u) hs -> eq_ic u B"websocket" = true ->
+  In (B"sec-websocket-version", B"13") hs ->
+  In (B"sec-websocket-key", key) hs ->
+  create_parts true true hs = HOk (accept_headers key).
+Proof. exact create_parts_accepts_members. Qed.
+
 (* ---- the response ---- *)
 
 (* bytes of the 101: status line, the three fixed headers with accept = base64(sha1(key ++ GUID)),
@@ -317,6 +327,7 @@ Print Assumptions C15_decide_iff.
 Print Assumptions C15_connection_token.
 Print Assumptions C15_reject_reason.
 Print Assumptions C15_invariance.
+Print Assumptions C15_accept_any_order.
 Print Assumptions C15_response.
 Print Assumptions C15_accept_value_shape.
 Print Assumptions C15_server_stages.
